@@ -31,7 +31,18 @@ pub struct Plan {
 
 fn foreign_sid(rng: &mut Rng) -> u64 {
     // ids of client-initiated bidirectional streams other than the live session (0)
-    match rng.below(6) {
+    match rng.below(7) {
+        // equal to the live session id (0) modulo 2^8, 2^16 or 2^32: a narrowing conversion of
+        // the session id or of the quarter stream id would alias it onto the live session
+        6 => {
+            let shift = *rng.pick(&[8u32, 16, 32, 32, 32]);
+            let k = match rng.below(3) {
+                0 => 1,
+                1 => 3,
+                _ => rng.range(1, (1u64 << (62 - shift)) - 1),
+            };
+            k << shift
+        }
         0 => 4,
         1 => 8,
         2 => 4 * rng.range(1, 60),
